@@ -33,7 +33,8 @@ func verifWindowMs() int64 {
 		return 1000
 	}
 	w := verifNondetInt64()
-	verifAssume(w >= 1 && w < 1<<36)
+	verifAssume(w >= 1)
+	verifAssume(w < 1<<36)
 	return w
 }
 
@@ -51,11 +52,13 @@ func verifCallLimiter(l RateLimiterClient, kind int, n int64) (Result, error) {
 // two keys; ghost variable 'admitted' = units admitted so far in the current window.
 func VerifC38_step() {
 	limit := verifNondetInt64()
-	verifAssume(limit >= 1 && limit < 1<<40)
+	verifAssume(limit >= 1)
+	verifAssume(limit < 1<<40)
 	wms := verifWindowMs()
 	r := &verifRedis{}
 	srv := verifNondetInt64() // the server's clock is unrelated to the callers' clocks
-	verifAssume(srv > 0 && srv < 1<<44)
+	verifAssume(srv > 0)
+	verifAssume(srv < 1<<44)
 	r.nowMs = srv
 	l, sc := verifNewLimiter(r, int(limit), time.Duration(wms)*time.Millisecond)
 
@@ -72,7 +75,8 @@ func VerifC38_step() {
 			&verifRKey{name: verifLimKey + ":ex", present: true, val: luaNumStr(e0), pxat: e0 + 1000})
 	}
 	now := verifNondetInt64()
-	verifAssume(now > 0 && now < 1<<44)
+	verifAssume(now > 0)
+	verifAssume(now < 1<<44)
 	verifSetNowMs(now)
 	kind := verifChoose(3)
 	var n int64
@@ -136,20 +140,27 @@ func VerifC38_step() {
 // summed per reported window directly.
 func VerifC38_history() {
 	limit := verifNondetInt64()
-	verifAssume(limit >= 1 && limit < 1<<40)
+	verifAssume(limit >= 1)
+	verifAssume(limit < 1<<40)
 	wms := verifWindowMs()
 	r := &verifRedis{}
 	r.nowMs = 1
-	l, _ := verifNewLimiter(r, int(limit), time.Duration(wms)*time.Millisecond)
+	l, sc := verifNewLimiter(r, int(limit), time.Duration(wms)*time.Millisecond)
+	// one reply may be lost after the server ran the script (the request is then counted once,
+	// the caller sees an error and admits nothing)
+	sc.lostReplies = int(verifParam("lost_replies", 1))
 	k := int(verifParam("calls", 3))
 	var winIDs, winSums, winEpochs []int64
+	lastEpoch, requested := int64(-1), int64(0) // ghost: everything requested in the current counter epoch
 	for i := 0; i < k; i++ {
 		now := verifNondetInt64()
-		verifAssume(now > 0 && now < 1<<44)
+		verifAssume(now > 0)
+		verifAssume(now < 1<<44)
 		verifSetNowMs(now)
 		// the server's clock moves forward by an arbitrary amount
 		d := verifNondetInt64()
-		verifAssume(d >= 0 && d < 1<<40)
+		verifAssume(d >= 0)
+		verifAssume(d < 1<<40)
 		r.nowMs += d
 		kind := verifChoose(3)
 		var n int64
@@ -158,10 +169,10 @@ func VerifC38_history() {
 			n = 1
 		case 2:
 			n = verifNondetInt64()
-			verifAssume(n >= 0 && n < 1<<50)
+			verifAssume(n >= 0)
+			verifAssume(n < 1<<50)
 		}
 		res, err := verifCallLimiter(l, kind, n)
-		verifAssert(err == nil, "the call succeeds")
 		// the counter's epoch: how often the window keys have been (re)created so far
 		epoch := int64(0)
 		for _, c := range r.calls {
@@ -169,6 +180,20 @@ func VerifC38_history() {
 				epoch++
 			}
 		}
+		if epoch != lastEpoch {
+			lastEpoch, requested = epoch, 0
+		}
+		requested += n
+		if err != nil {
+			verifAssert(err == verifErrTransport, "only the injected fault may fail a call")
+			verifReach("lostreply")
+			continue
+		}
+		wantRemaining := limit - requested
+		if wantRemaining < 0 {
+			wantRemaining = 0
+		}
+		verifAssert(res.Remaining == wantRemaining, "Remaining is the limit minus everything requested so far in the window (each request counted once)")
 		if res.Allowed && n > 0 {
 			found := false
 			for j := range winIDs {
